@@ -65,8 +65,9 @@ ListKeys(o, q) ==
     [] q = "bcn" -> [i \in DOMAIN o.bcn.ch |-> o.bcn.ch[i].id]
     [] q = "str" -> o.str.order
     [] OTHER -> <<>>
-ReceiverOf(k) == SubSeq(k, 1, 2)      \* stream keys are "Rn/Sn" over two-character account names
-SenderOf(k) == SubSeq(k, 4, 5)
+\* stream keys are "receiver/sender" over account names of any length (no name contains "/")
+HasReceiver(k, r) == Len(k) > Len(r) /\ SubSeq(k, 1, Len(r) + 1) = r \o "/"
+HasSender(k, x) == Len(k) > Len(x) /\ SubSeq(k, Len(k) - Len(x), Len(k)) = "/" \o x
 ListMatch(o, q, f) ==
   CASE q = "po" -> { o.ent.po[i].id : i \in { j \in DOMAIN o.ent.po :
                         /\ (f.st = "" \/ o.ent.po[j].st = f.st)
@@ -74,11 +75,11 @@ ListMatch(o, q, f) ==
     [] q \in {"wrk", "bcn"} -> { o[q].ch[i].id : i \in { j \in DOMAIN o[q].ch :
                         /\ (f.moniker = "" \/ o[q].ch[j].moniker = f.moniker)
                         /\ (f.owner = "" \/ o[q].ch[j].owner = f.owner) } }
-    [] q = "str" -> { k \in Range(o.str.order) : /\ (f.sender = "" \/ SenderOf(k) = f.sender)
-                                                  /\ (f.receiver = "" \/ ReceiverOf(k) = f.receiver) }
+    [] q = "str" -> { k \in Range(o.str.order) : /\ (f.sender = "" \/ HasSender(k, f.sender))
+                                                  /\ (f.receiver = "" \/ HasReceiver(k, f.receiver)) }
     [] OTHER -> {}
 \* by-receiver listings iterate a prefix store: their key sequence is the receiver's sub-sequence
-ListKeysFor(o, q, f) == IF q = "str" /\ f.receiver # "" THEN SelectSeq(o.str.order, LAMBDA k : ReceiverOf(k) = f.receiver)
+ListKeysFor(o, q, f) == IF q = "str" /\ f.receiver # "" THEN SelectSeq(o.str.order, LAMBDA k : HasReceiver(k, f.receiver))
                         ELSE ListKeys(o, q)
 
 \* the item a point query returns for key k
